@@ -9,7 +9,13 @@ pub mod c08;
 pub mod c09;
 pub mod c11;
 pub mod c12;
+pub mod c14;
 pub mod c15;
+pub mod c16;
+pub mod c17;
+pub mod c18;
+pub mod c19;
+pub mod c20;
 pub mod backend;
 pub mod common;
 
@@ -31,7 +37,13 @@ pub fn run_check(ctx: &Ctx) -> i32 {
         "C13" => c09::run(ctx, &c09::c13_spec(ctx)),
         "C11" => c11::check(ctx),
         "C12" => c12::check(ctx),
+        "C14" => c14::check(ctx),
         "C15" => c15::check(ctx),
+        "C16" => c16::check(ctx),
+        "C17" => c17::check(ctx),
+        "C18" => c18::check(ctx),
+        "C19" => c19::check(ctx),
+        "C20" => c20::check(ctx),
         other => {
             eprintln!("unknown property {other}");
             2
@@ -62,7 +74,13 @@ pub fn run_replay(ctx: &Ctx, file: &Path) -> i32 {
         "C09" => c09::replay(ctx, &c09::c09_spec(ctx), &sub, &bytes, &v["case"]),
         "C11" => c11::replay(ctx, &sub, &bytes, &v["case"]),
         "C12" => c12::replay(ctx, &sub, &bytes, &v["case"]),
+        "C14" => c14::replay(ctx, &sub, &bytes, &v["case"]),
         "C15" => c15::replay(ctx, &sub, &bytes, &v["case"]),
+        "C16" => c16::replay(ctx, &sub, &bytes, &v["case"]),
+        "C17" => c17::replay(ctx, &sub, &bytes, &v["case"]),
+        "C18" => c18::replay(ctx, &sub, &bytes, &v["case"]),
+        "C19" => c19::replay(ctx, &sub, &bytes, &v["case"]),
+        "C20" => c20::replay(ctx, &sub, &bytes, &v["case"]),
         "C10" => c09::replay(ctx, &c09::c10_spec(ctx), &sub, &bytes, &v["case"]),
         "C13" => c09::replay(ctx, &c09::c13_spec(ctx), &sub, &bytes, &v["case"]),
         other => {
